@@ -284,12 +284,12 @@ def macs_under_other_key(raw, r):
 
 @_with_entry
 def payload_mac_damaged(raw, e, i, r):
-    e.flip_pmac = True
+    e.flip_pmac = (r.randrange(16), 1 << r.randrange(8))
 
 
 @_with_entry
 def entry_mac_damaged(raw, e, i, r):
-    e.flip_emac = True
+    e.flip_emac = (r.choice([0, 7, 8, 15, r.randrange(16)]), 1 << r.randrange(8))
 
 
 @_with_entry
@@ -385,15 +385,12 @@ def gen_cases(ctx, r, ciph, n_files, pairs, tag):
         off = OFFS[fi % len(OFFS)]
         base = raw_of(comps, key, ciph)
         ctx.dist[tag + ":comps=%d" % len(comps)] += 1
-        # unedited: as written by the implementation, and by the emitter (they must coincide: C03)
+        # unedited: as written by the implementation, and by the emitter
         w = run_impl(B.build(cm, comps).to_binary, off, key)
         mine = emit(base, off, key, ciph)
         if w[0] == "ok":
             yield ("written-by-implementation", w[1], off, key, True, comps)
             yield ("written-by-implementation", w[1], off, key, False, comps)
-            if w[1] != mine:
-                ctx.broken("harness: the field-list emitter and the implementation's writer differ on a valid file "
-                           "(C03 must be red as well)", repr((comps, key, off, w[1].hex(), mine.hex()))[:3000])
         yield ("valid-emitted", mine, off, key, True, comps)
         for ed in EDITS:
             raw = ed(base, r)
@@ -514,6 +511,21 @@ def search(ctx):
             ctx.fail("reader-accept", {"body": body, "off": off, "key": key, "check": check, "cipher": "aes", "edit": label}, why)
     for label, body, off, key, check, comps in gen_cases(ctx, r, ciph, nfiles, ctx.budget(4, 12), "search"):
         run(label, body, off, key, check)
+    # more than 255 entries (entry index beyond one byte), and a payload beyond 65535 bytes
+    key = B.rkey(r)
+    many = raw_of([({}, bytes([1 + j % 255]), None, False) for j in range(257)], key, ciph)
+    run("valid-emitted-257-entries", emit(many, 5, key, ciph), 5, key, True)
+    wrong = many.copy()
+    wrong.entries[256].iv_index = 1
+    run("iv_index_mod_256", emit(wrong, 5, key, ciph), 5, key, True)
+    wrong = many.copy()
+    wrong.entries[256].adr_delta = -256
+    run("adr_minus_256", emit(wrong, 5, key, ciph), 5, key, True)
+    long_ = raw_of([({1: b"a"}, bytes(r.randrange(256) for _ in range(65537)), 65536, False), ({}, b"tail", None, False)], key, ciph)
+    run("valid-emitted-long-payload", emit(long_, 65535, key, ciph), 65535, key, True)
+    wrong = long_.copy()
+    wrong.entries[1].adr_delta = -65536
+    run("adr_minus_65536", emit(wrong, 65535, key, ciph), 65535, key, True)
     if not ctx.quick() or ctx.brokens:
         for label, body, off, key, check, comps in all_pairs(ctx, r, ciph):
             run(label, body, off, key, check)
